@@ -63,7 +63,9 @@ type c14Rule struct {
 }
 
 type c14Obs struct {
-	Loaded     bool     `json:"loaded"`
+	Loaded bool `json:"loaded"`
+	// PairLoaded: the rule set made of this rule (at another path) followed by a well-formed rule was accepted
+	PairLoaded bool     `json:"pair_loaded"`
 	Err        string   `json:"err,omitempty"`
 	ExecOK     []string `json:"exec_ok"`
 	ExecFail   []string `json:"exec_fail"`
@@ -646,6 +648,29 @@ func c14RunGroup(cases []c14Case, idxs []int, up *client.Upstream, w *trace.Writ
 			rec.Take(id)
 
 			obs.Bt = o.PipelineHeader(a.Mode, "X-Rule") == "fb"
+		}
+
+		// a rule set is accepted as a whole or not at all: the same rule at another path, followed by a
+		// well-formed one
+		first := rc
+		first.ID = rc.ID + "-first"
+		first.Matcher.Routes = []rconfig.Route{{Path: prefix + "/y/:p"}}
+
+		second := fb
+		second.ID = fb.ID + "-second"
+		second.Matcher.Routes = []rconfig.Route{{Path: prefix + "/z/**"}}
+
+		pair := &rconfig.RuleSet{
+			MetaData: rconfig.MetaData{Source: fmt.Sprintf("pair-%d", n+1)}, Version: rconfig.CurrentRuleSetVersion,
+			Name: "pair", Rules: []rconfig.Rule{first, second},
+		}
+
+		if perr := a.Processor.OnCreated(pair); perr == nil {
+			obs.PairLoaded = true
+
+			if derr := a.Processor.OnDeleted(pair); derr != nil {
+				return fmt.Errorf("unloading the pair of %s: %w", c.ID, derr)
+			}
 		}
 
 		// the admission webhook sees the same rule before it would ever be loaded
